@@ -1072,25 +1072,27 @@ def r02_6_extraneous(ctx):
                 if isinstance(x, ast.Compare) and len(x.ops) == 1 and norm(x.left) == kv \
                         and isinstance(x.ops[0], (ast.NotIn, ast.In)) and (isinstance(x.ops[0], ast.NotIn) == p_):
                     member = x.comparators[0]
-            if member is None or 'mapping' not in norm(lo.iter):
+            if member is None or not norm(lo.iter).endswith('.items()'):
                 continue
             found = True
             mtxt = g.copies.xnorm(member)
-            r.check(mtxt == 'argspec.args', 'keys are checked against argspec.args',
+            sigp = [p_ for p_ in g.fi.params if g.fi.param_annotation(p_) is not None and 'FullArgSpec' in norm(g.fi.param_annotation(p_))]
+            ARGS = '%s.args' % (sigp[0] if sigp else 'argspec')
+            r.check(mtxt == ARGS, 'keys are checked against argspec.args',
                     g.key('extraneous-key-allowed-set'), g.loc(rs),
                     'keys are accepted when they are in %s rather than in argspec.args: such keys are never recognised or '
                     'type-checked but reach __init__' % mtxt)
             inside = [(g.copies.xnorm(b.ast), b.pol) for b in g.cfg.guard_nodes(g.nid(rs))
                       if any(x is lo for x in _ancestors_list(b.ast)) and not isinstance(b.ast, ast.BoolOp)]
-            allowed = {('%s not in argspec.args' % kv, True), ('%s in argspec.args' % kv, False),
+            allowed = {('%s not in %s' % (kv, ARGS), True), ('%s in %s' % (kv, ARGS), False),
                        ('%s not in %s' % (kv, mtxt), True), ('%s in %s' % (kv, mtxt), False),
-                       ("'_yatiml_extra' not in argspec.args", True), ("'_yatiml_extra' in argspec.args", False),
+                       ("'_yatiml_extra' not in %s" % ARGS, True), ("'_yatiml_extra' in %s" % ARGS, False),
                        ('isinstance(%s, str)' % kv, True)}
             extra = [x for x in inside if x not in allowed]
             r.check(not extra, 'raise under `%s not in argspec.args and "_yatiml_extra" not in argspec.args` only' % kv,
                     g.key('extraneous-key-condition'), g.loc(rs),
                     'the extraneous-key rejection is narrowed by %s: such keys reach __init__ unchecked' % extra)
-            r.check(not breaks_of(lo, g.node) and 'mapping' in norm(lo.iter), 'every key of the mapping is checked',
+            r.check(not breaks_of(lo, g.node) and norm(lo.iter).endswith('.items()'), 'every key of the mapping is checked',
                     g.key('extraneous-loop'), g.loc(lo), 'not every key is checked for being extraneous')
             # the check runs before __init__
             c = fn(P, CTOR + '__call__')
@@ -2073,8 +2075,9 @@ def r10_hooks(ctx):
                            'dominates the own hook call', floor=3)
     for key, hook, name, reg in (
             ('yatiml.loader:Loader.__savorize', '_yatiml_savorize', '__savorize', ['self._registered_classes.values()']),
-            ('yatiml.representers:Representer.__sweeten', '_yatiml_sweeten', '__sweeten', ['dumper.yaml_representers'])):
+            ('yatiml.representers:Representer.__sweeten', '_yatiml_sweeten', '__sweeten', ['{p1}.yaml_representers'])):
         f = fn(P, key)
+        reg = [x.format(p1=f.fi.params[1]) for x in reg]
         calls = hook_calls(f, hook)
         rec = [c for c in f.calls(name) if f.live(c)]
         if not calls:
